@@ -45,6 +45,8 @@ type Checker struct {
 	iriID       map[string]string // iri → data id hex
 	anchorFirst map[string]TS     // data id → block time of first anchoring
 
+	basketInvBroken bool // verdict of the basket-supply invariant at the previous item
+
 	// current step
 	it   *chain.Item
 	pre  *View
